@@ -79,7 +79,9 @@ func snapshotDatalogGoroutines() dlGoroutines {
 			continue
 		}
 		state := mm[2]
-		if strings.HasPrefix(state, "chan send") {
+		// parked on a channel operation: a plain send, or a select between a send and a "done"
+		// channel that nobody will ever close
+		if strings.HasPrefix(state, "chan send") || strings.HasPrefix(state, "select") {
 			out.blockedSend[mm[1]] = true
 		} else {
 			out.active++
